@@ -95,6 +95,7 @@ def gdoc_cases(rng, suite, n):
         st = U.Style(rng)
         if rng.random() < 0.85: st.enum_mode = 'num'
         txt = B.render_table(suite, root, v, st)
+        if len(txt) > 5000: continue           # the list-based extracted model is quadratic in the number of objects
         fl = rng.choice([0, 0, 1, 2, 3, 4, 5, 7, rng.randrange(32)])
         fid = rng.choice([0, 1])
         out.append((root, fl, fid, txt, 'g-valid'))
